@@ -71,12 +71,16 @@ func round6(w *World, r *Report) {
 		ruleFirstMessageAnyType(w, r, "C02", "R02.13")
 		rulePeerKeyIsSourceAddr(w, r, "C02", "R02.14")
 	case "C03":
+		ruleReleaseReadsOnly(w, r, "C03", "R03.20")
+		ruleSessionQerMovedNotSwapped(w, r, "C03", "R03.21")
 		ruleCommandMatchesModule(w, r, "C03", "R03.19")
 		// R03.17 every QER has one uplink and one downlink entry with the gate its own direction's status gives
 		r.withOnly("R03.17", onlyRule("R09.2"), func() { ruleC09(w, r) })
 		r.Explanation += " R03.17 gate decision table per direction of the BESS QER entries (C09 R09.2 re-filed);"
 		ruleWidthLimitIsExclusiveOf100(w, r, "C03", "R03.18")
 	case "C04":
+		ruleDeleteGetsTheRules(w, r, "C04", "R04.21")
+		ruleReservedIDNotPooled(w, r, "C04", "R04.22")
 		r.withRule("R04.20", func() { ruleC05Complete(w, r) })
 		r.withRule("R04.16", func() { ruleC07EverySessionsEntry(w, r) })
 		r.withRule("R04.17", func() { ruleC09MeterArray(w, r) })
@@ -84,6 +88,8 @@ func round6(w *World, r *Report) {
 		ruleOwnReferenceDroppedFirst(w, r, "C04", "R04.19")
 		r.Explanation += " R04.16 the sessions entry of every PDR is part of its batch (C07 R07.11); R04.17 meters are programmed and reset in the array of their kind (C09 R09.9); R04.18 UP4 state is keyed by F-SEID: two associations never draw the same SEID sequence (C06 R06.7);"
 	case "C06":
+		ruleCreateOnlyAppends(w, r, "C06", "R06.13")
+		rulePoolArgIsThePool(w, r, "C06", "R06.14")
 		ruleNoRelock(w, r, "R06.12")
 		r.withOnly("R06.9", onlyRule("R01.J5"), func() { ruleC01Secondary(w, r) })
 		ruleLocalSEIDArgs(w, r, "C06", "R06.10")
@@ -97,18 +103,23 @@ func round6(w *World, r *Report) {
 		})
 		r.Explanation += " R07.14 the UP F-SEID reported in the accepted establishment is session.localSEID (C02 R02.4);"
 	case "C08":
+		ruleReservedIDNotPooled(w, r, "C08", "R08.14")
+		ruleOwnReferenceDroppedFirst(w, r, "C08", "R08.15")
 		r.withRule("R08.13", func() { ruleC17DoneOnce(w, r) })
 		r.withRule("R08.10", func() { ruleC03Scratch(w, r) })
 		r.Explanation += " R08.10 every Create/Update PDR is parsed into a value of its own (no filter field carried over from the previous IE; C03 R03.10);"
 		rulePortsKeptForEveryProtocol(w, r, "C08", "R08.11")
 		ruleNewAppPFDIsFresh(w, r, "C08", "R08.12")
 	case "C10":
+		ruleWorkerAlwaysReports(w, r, "C10", "R10.19")
 		ruleNoRelock(w, r, "R10.18")
 		r.withOnly("R10.16", onlyRule("R05.2"), func() { ruleC05(w, r) })
 		ruleOnlyReadDeadline(w, r, "C10", "R10.17")
 		ruleHandledOnReader(w, r, "C10", "R10.15")
 		r.Explanation += " R10.15 the reader handles each message itself (a release cannot overtake a request in flight on the same association); R10.16 every session-ending site removes the datapath entries unconditionally and releases what the session holds (C05 R05.2); R10.17 only the reader's read deadline decides that a peer went silent (C02 R02.11);"
 	case "C11":
+		ruleNoLockHeldAcrossIteration(w, r, "R11.19")
+		ruleWorkerAlwaysReports(w, r, "C11", "R11.20")
 		r.withOnly("R11.18", func(o Obligation) bool { return o.Rule == "R14.5" && strings.Contains(o.Construct, "buffer created by this call") }, func() { ruleC14(w, r) })
 		// R11.15: a panic in code that operates on an object shared by every association ends all of them
 		{
@@ -137,6 +148,7 @@ func round6(w *World, r *Report) {
 		ruleNoCloseOfWorkerChannel(w, r, "R11.17")
 		r.Explanation += " R11.15 crash obligations (index, nil, type assertion, exit, division) of every method of a shared object reachable from the receive path (C01 R01.1 restricted to UP4, bess, IPPool, FTEIDGenerator, P4rtClient, P4rtTranslator, metrics.Service, upf); R11.16 an ending association returns what it holds in the shared pools on every path (C05 R05.2);"
 	case "C13":
+		ruleNoLockHeldAcrossIteration(w, r, "R13.17")
 		r.withRule("R13.15", func() { ruleC04Shared(w, r) })
 		r.withOnly("R13.16", onlyRule("R03.6"), func() { ruleC03Handlers(w, r) })
 		r.withRule("R13.12", func() { ruleC07SEID(w, r) })
@@ -169,6 +181,7 @@ func round6(w *World, r *Report) {
 		ruleNoCloseOfWorkerChannel(w, r, "R01.1.CLOSE")
 		r.Explanation += " R01.1.TICK no ticker interval is computed as a difference with elapsed time (NewTicker/Reset panic on ≤ 0); R01.1.CLOSE a completion channel that started workers send on is never closed by the function that waits for them;"
 	case "C09":
+		ruleSessionQerMovedNotSwapped(w, r, "C09", "R09.16")
 		r.withRule("R09.15", func() { ruleC05Complete(w, r) })
 		ruleStoredPdrSharesQerList(w, r, "C09", "R09.13")
 		ruleOneSessionQerLabel(w, r, "C09", "R09.14")
@@ -187,6 +200,9 @@ func round6(w *World, r *Report) {
 		ruleSliceMeterJoinCount(w, r, "C19", "R19.8")
 		r.Explanation += " R19.8 every caller of addSliceMeter joins as many completions as it starts workers;"
 	case "C05":
+		ruleGaugeCountedBeforeAbort(w, r, "C05", "R05.24")
+		ruleDeleteGetsTheRules(w, r, "C05", "R05.25")
+		ruleReleaseReadsOnly(w, r, "C05", "R05.26")
 		ruleNoRelock(w, r, "R05.23")
 		ruleTeidReleasedUnderItsMark(w, r, "C05", "R05.20")
 		ruleCreateWritesThroughStoredRules(w, r, "C05", "R05.21")
@@ -1160,6 +1176,17 @@ func ruleOwnReferenceDroppedFirst(w *World, r *Report, prop, rule string) {
 					dom = true
 				}
 			}
+			if cv, ok := c.(ssa.Value); ok && cv.Referrers() != nil {
+				for _, ref := range *cv.Referrers() {
+					if bo, ok := ref.(*ssa.BinOp); ok {
+						k, isK := constInt(bo.Y)
+						if !isK {
+							k, isK = constInt(bo.X)
+						}
+						r.check(isK && k == 0, rule, w.FuncName(f), "the shared object goes when NO user is left (count compared with 0)", w.Pos(bo.Pos()), fmt.Sprintf("%s %d", bo.Op, k), fmt.Sprintf("the number of remaining users is compared with %d, not 0: the entry is deleted and its ID released while one user — a live rule of another session — still refers to it", k))
+					}
+				}
+			}
 			r.check(dom, rule, w.FuncName(f), "the users are counted after the caller's own reference was dropped", w.Pos(c.Pos()), "Remove dominates Cardinality", "the remaining users of the shared object are counted before (or without) removing the caller's reference: a removal repeated for the same rule — the agent supports repeating a deletion that failed half way — finds the other user's reference, and deletes the entry and releases the ID that a live session still uses")
 		}
 	}
@@ -1406,4 +1433,351 @@ func ruleNoRelock(w *World, r *Report, rule string) {
 		r.ok(rule, "pfcpiface", "no mutex is re-acquired while held (calls and printed values under a lock)", "-", fmt.Sprintf("%d calls / printed values examined under a non-empty lockset", sites))
 	}
 	r.floor(rule+" call sites under a lock", sites, 20)
+}
+
+// =============================================================================================
+// round 7
+
+// ruleReleaseReadsOnly: releaseAllocatedTEIDs / releaseAllocatedIPs give identifiers back; they do not edit the
+// session they are given. One caller (the report-response path) releases BEFORE it deletes from the datapath,
+// and the delete keys are built from the very fields a "forgetful" release would zero.
+func ruleReleaseReadsOnly(w *World, r *Report, prop, rule string) {
+	for _, name := range []string{"pfcpiface.releaseAllocatedTEIDs", "pfcpiface.releaseAllocatedIPs"} {
+		f := w.Fn(prop, name)
+		var bad *ssa.Store
+		allInstrs(f, func(i ssa.Instruction) {
+			st, ok := i.(*ssa.Store)
+			if !ok {
+				return
+			}
+			// the address written to, followed down to what it is an address IN: the session parameter?
+			a := st.Addr
+			for d := 0; d < 8 && a != nil; d++ {
+				switch x := a.(type) {
+				case *ssa.FieldAddr:
+					a = x.X
+					continue
+				case *ssa.IndexAddr:
+					a = x.X
+					continue
+				case *ssa.UnOp:
+					a = x.X
+					continue
+				case *ssa.Parameter:
+					if rootTypeName(x.Type()) == "PFCPSession" {
+						bad = st
+					}
+				}
+				break
+			}
+		})
+		pos := w.Pos(f.Pos())
+		if bad != nil {
+			pos = w.Pos(bad.Pos())
+		}
+		r.check(bad == nil, rule, w.FuncName(f), "the release does not edit the session's rules", pos, "no store into the session", "the release writes into the session it was given (it zeroes the mark / the TEID): a caller that releases before it deletes from the datapath builds its delete keys from the zeroed fields, the delete matches nothing and the rule stays installed")
+	}
+}
+
+// ruleSessionQerMovedNotSwapped: the session QER goes to the end of a PDR's QER list and the others keep their
+// order (the first of them is the application QER that is programmed): nothing is stored AT the found index.
+func ruleSessionQerMovedNotSwapped(w *World, r *Report, prop, rule string) {
+	f := w.Fn(prop, "pfcpiface.(*PFCPSession).MarkSessionQer")
+	var idxVals []ssa.Value
+	allInstrs(f, func(i ssa.Instruction) {
+		if c, ok := i.(*ssa.Call); ok && staticCallee(c) != nil && staticCallee(c).Name() == "findItemIndex" {
+			idxVals = append(idxVals, c)
+		}
+	})
+	r.floor(rule+" index searches in MarkSessionQer", len(idxVals), 1)
+	var bad *ssa.Store
+	allInstrs(f, func(i ssa.Instruction) {
+		st, ok := i.(*ssa.Store)
+		if !ok {
+			return
+		}
+		ia, ok := st.Addr.(*ssa.IndexAddr)
+		if !ok {
+			return
+		}
+		for _, iv := range idxVals {
+			if stripConv(ia.Index) == iv {
+				bad = st
+			}
+		}
+	})
+	pos := w.Pos(f.Pos())
+	if bad != nil {
+		pos = w.Pos(bad.Pos())
+	}
+	r.check(bad == nil, rule, w.FuncName(f), "the other QER IDs keep their order when the session QER moves to the end", pos, "no element stored at the found index", "an element is stored at the position the session QER was found at (a swap with the last element): with three or more QERs the order of the others changes, and the PDR is programmed with a different application QER than the first one the control plane listed")
+}
+
+// ruleDeleteGetsTheRules: a delete hands the rules to delete as the FIRST rule set (that is what both plug-ins
+// read on delete); an empty literal there deletes nothing.
+func ruleDeleteGetsTheRules(w *World, r *Report, prop, rule string) {
+	delC := w.ConstInt(prop, pfcpPkg, "upfMsgTypeDel")
+	n := 0
+	for f := range w.allFuncs() {
+		if !w.isRepoFunc(f) || strings.HasPrefix(w.FuncName(f), "test/") {
+			continue
+		}
+		f := f
+		allInstrs(f, func(i ssa.Instruction) {
+			c, ok := i.(ssa.CallInstruction)
+			if !ok || !callNamed("SendMsgToUPF")(i) {
+				return
+			}
+			args := c.Common().Args
+			if !c.Common().IsInvoke() {
+				if len(args) == 0 {
+					return
+				}
+				args = args[1:]
+			}
+			if len(args) < 3 {
+				return
+			}
+			if k, ok := constInt(args[0]); !ok || k != delC {
+				return
+			}
+			n++
+			empty := false
+			if k, ok := args[1].(*ssa.Const); ok && k.Value == nil {
+				empty = true // the zero value of the rule-set type
+			}
+			if u, ok := args[1].(*ssa.UnOp); ok {
+				if al, ok := u.X.(*ssa.Alloc); ok {
+					stores := 0
+					if al.Referrers() != nil {
+						for _, ref := range *al.Referrers() {
+							switch ref.(type) {
+							case *ssa.Store, *ssa.FieldAddr:
+								stores++
+							}
+						}
+					}
+					empty = stores == 0
+				}
+			}
+			r.check(!empty, rule, w.FuncName(f), "a datapath delete names the rules to delete", w.Pos(c.Pos()), symOf(args[1]).String(), "SendMsgToUPF(delete) is given an empty rule set in the position both datapaths read on delete (the rules are in the other argument): nothing is removed from the datapath although the session is dropped")
+		})
+	}
+	r.floor(rule+" datapath deletes", n, 4)
+}
+
+// ruleGaugeCountedBeforeAbort: a refused establishment ends through RemoveSession, which takes a unit out of the
+// sessions gauge; the unit is put in when the session object is created (NewPFCPSession), before any path
+// that can abort.
+func ruleGaugeCountedBeforeAbort(w *World, r *Report, prop, rule string) {
+	nps := w.Fn(prop, "pfcpiface.(*PFCPConn).NewPFCPSession")
+	counted := len(callsIn(nps, func(c ssa.CallInstruction) bool { return callNamed("SaveSessions")(c.(ssa.Instruction)) })) > 0
+	if counted {
+		r.ok(rule, w.FuncName(nps), "the gauge unit exists before the establishment can be refused", w.Pos(nps.Pos()), "SaveSessions in NewPFCPSession")
+		return
+	}
+	est := w.Fn(prop, "pfcpiface.(*PFCPConn).handleSessionEstablishmentRequest")
+	var bad ssa.Instruction
+	for _, g := range withClosures(est) {
+		saves := callsIn(g, func(c ssa.CallInstruction) bool { return callNamed("SaveSessions")(c.(ssa.Instruction)) })
+		for _, rm := range callsIn(g, func(c ssa.CallInstruction) bool { return callNamed("RemoveSession")(c.(ssa.Instruction)) }) {
+			dom := false
+			for _, s := range saves {
+				if instrDominates(s.(ssa.Instruction), rm.(ssa.Instruction)) {
+					dom = true
+				}
+			}
+			if !dom {
+				bad = rm.(ssa.Instruction)
+			}
+		}
+	}
+	pos := w.Pos(est.Pos())
+	if bad != nil {
+		pos = w.Pos(bad.Pos())
+	}
+	r.check(bad == nil, rule, w.FuncName(est), "the gauge unit exists before the establishment can be refused", pos, "SaveSessions dominates every RemoveSession", "NewPFCPSession no longer counts the session and the handler counts it only on its accepting path, but the refusing exits still end through RemoveSession: every refused establishment takes a unit out of the sessions gauge that was never put in")
+}
+
+// ruleCreateOnlyAppends: CreatePDR appends. Replacing a stored PDR there bypasses UpdatePDR's carry-over of the
+// allocation marks (R05.7): the address the UPF chose for the replaced PDR is never given back.
+func ruleCreateOnlyAppends(w *World, r *Report, prop, rule string) {
+	f := w.Fn(prop, "pfcpiface.(*PFCPSession).CreatePDR")
+	var bad *ssa.Store
+	marks := false
+	allInstrs(f, func(i ssa.Instruction) {
+		if st, ok := i.(*ssa.Store); ok {
+			if ia, ok := st.Addr.(*ssa.IndexAddr); ok && strings.HasSuffix(symOf(ia.X).String(), ".pdrs") {
+				bad = st
+			}
+		}
+		if fa, ok := i.(*ssa.FieldAddr); ok && fieldVar(fa) != nil && fieldVar(fa).Name() == "allocIPFlag" {
+			marks = true
+		}
+	})
+	pos := w.Pos(f.Pos())
+	if bad != nil {
+		pos = w.Pos(bad.Pos())
+	}
+	r.check(bad == nil || marks, rule, w.FuncName(f), "CreatePDR does not replace a stored PDR (or carries its allocation marks over)", pos, "append only", "CreatePDR overwrites a stored PDR with the parsed one and drops its allocIPFlag / UPAllocateFteid marks: a Create PDR that repeats an ID (with the concrete address the UPF had chosen) makes the session end without DeallocIP")
+}
+
+// rulePoolArgIsThePool: every parsePDR call of the session handlers is given the UPF's pool (a nil pool makes a
+// CHV4 request fail although addresses are free, and hides a sticky address from its session).
+func rulePoolArgIsThePool(w *World, r *Report, prop, rule string) {
+	pf := w.Fn(prop, "pfcpiface.(*pdr).parsePDR")
+	n := 0
+	for _, hn := range []string{"pfcpiface.(*PFCPConn).handleSessionEstablishmentRequest", "pfcpiface.(*PFCPConn).handleSessionModificationRequest"} {
+		h := w.Fn(prop, hn)
+		for k, c := range callsTo(h, pf) {
+			n++
+			a := c.Common().Args[len(c.Common().Args)-1]
+			s := symOf(a).String()
+			r.check(strings.HasSuffix(s, ".ippool"), rule, hn, fmt.Sprintf("parsePDR call #%d is given the UPF's address pool", k+1), w.Pos(c.Pos()), s, "parsePDR is given "+s+" as pool: a PDR of this request that asks for (or repeats its request for) a UPF-chosen address is refused although the pool has addresses")
+		}
+	}
+	r.floor(rule+" parsePDR calls", n, 3)
+}
+
+// ruleReservedIDNotPooled: ID 0 means "no application" / "no tunnel peer"; the pools are filled from 1.
+func ruleReservedIDNotPooled(w *World, r *Report, prop, rule string) {
+	n := 0
+	for _, name := range []string{"pfcpiface.(*UP4).initApplicationIDs", "pfcpiface.(*UP4).initTunnelPeerIDs"} {
+		f := w.Fn(prop, name)
+		allInstrs(f, func(i ssa.Instruction) {
+			c, ok := i.(*ssa.Call)
+			if !ok || calleeName(c) != "builtin.append" || len(c.Call.Args) < 2 {
+				return
+			}
+			// the appended element: stored into the var-args array
+			var elem ssa.Value
+			if sl, ok := c.Call.Args[1].(*ssa.Slice); ok {
+				if al, ok := sl.X.(*ssa.Alloc); ok && al.Referrers() != nil {
+					for _, ref := range *al.Referrers() {
+						if ia, ok := ref.(*ssa.IndexAddr); ok && ia.Referrers() != nil {
+							for _, r2 := range *ia.Referrers() {
+								if st, ok := r2.(*ssa.Store); ok {
+									elem = st.Val
+								}
+							}
+						}
+					}
+				}
+			}
+			if elem == nil {
+				return
+			}
+			n++
+			v := stripConv(elem)
+			start := int64(-99)
+			if phi, ok := v.(*ssa.Phi); ok {
+				for _, e := range phi.Edges {
+					if k, isK := constInt(e); isK {
+						start = k
+					}
+				}
+			} else if bo, ok := v.(*ssa.BinOp); ok && bo.Op.String() == "+" {
+				if phi, ok := bo.X.(*ssa.Phi); ok {
+					for _, e := range phi.Edges {
+						if k, isK := constInt(e); isK {
+							if d, isD := constInt(bo.Y); isD {
+								start = k + d
+							}
+						}
+					}
+				}
+			}
+			r.check(start >= 1, rule, w.FuncName(f), "the pool is filled from 1 (0 is reserved)", w.Pos(c.Pos()), fmt.Sprintf("first value %d", start), fmt.Sprintf("the pool's first value is %d: ID 0 is the value that means 'none' (DefaultApplicationID / no tunnel peer) — the object that gets it matches like an unfiltered rule and collides with the entries of rules that have none", start))
+		})
+	}
+	r.floor(rule+" pool fills", n, 2)
+}
+
+// ruleWorkerAlwaysReports: a BESS rule worker that was started reports its completion on every path except the
+// ones that give up on an error (those are counted by the join's time-out, R11.4): a silent return under any
+// other condition costs the request the full time-out for every such rule.
+func ruleWorkerAlwaysReports(w *World, r *Report, prop, rule string) {
+	n := 0
+	for f := range w.allFuncs() {
+		if !w.isRepoFunc(f) || f.Parent() == nil || f.Parent().Signature.Recv() == nil || rootTypeName(f.Parent().Signature.Recv().Type()) != "bess" {
+			continue
+		}
+		var sends []ssa.Instruction
+		allInstrs(f, func(i ssa.Instruction) {
+			if s, ok := i.(*ssa.Send); ok && strings.Contains(typeName(s.Chan.Type()), "chan") && typeName(s.X.Type()) == "bool" {
+				sends = append(sends, i)
+			}
+		})
+		if len(sends) == 0 {
+			continue
+		}
+		n++
+		isSend := func(i ssa.Instruction) bool { _, ok := i.(*ssa.Send); return ok }
+		errEdge := func(a, b *ssa.BasicBlock) bool {
+			x, op, y, ok := edgeFact(a, b)
+			if !ok {
+				return false
+			}
+			isErr := func(v ssa.Value) bool { return v != nil && isErrorType(v.Type()) }
+			return op.String() == "!=" && ((isErr(x) && isNilConst(y)) || (isErr(y) && isNilConst(x)))
+		}
+		miss := reach(f, nil, isReturn, isSend, errEdge)
+		pos := w.Pos(f.Pos())
+		if miss != nil {
+			pos = w.Pos(miss.Pos())
+		}
+		r.check(miss == nil, rule, w.FuncName(f), "the worker reports completion on every path that did not fail", pos, "send on done before every return (error exits aside)", "the worker can return without reporting although nothing failed: the join of the request waits out its time-out for this rule — a session delete takes a second per such rule, an association with many sessions runs into the stop time-out with sessions left in the datapath")
+	}
+	r.floor(rule+" BESS rule workers", n, 6)
+}
+
+// ruleNoLockHeldAcrossIteration: between two acquisitions of the same mutex in one function there is a release
+// on every path (a `continue` that skips the unlock leaves the loop holding the lock and blocks on it at once).
+func ruleNoLockHeldAcrossIteration(w *World, r *Report, rule string) {
+	n := 0
+	for f := range w.allFuncs() {
+		if !w.isRepoFunc(f) || strings.HasPrefix(w.FuncName(f), "test/") {
+			continue
+		}
+		f := f
+		allInstrs(f, func(i ssa.Instruction) {
+			c, ok := i.(ssa.CallInstruction)
+			if !ok {
+				return
+			}
+			op, mu, _, ok := lockOp(c)
+			if !ok || op != "Lock" {
+				return
+			}
+			if _, isDefer := i.(*ssa.Defer); isDefer {
+				return
+			}
+			n++
+			same := func(want string) instrPred {
+				return func(j ssa.Instruction) bool {
+					cj, ok := j.(ssa.CallInstruction)
+					if !ok {
+						return false
+					}
+					o2, m2, _, ok := lockOp(cj)
+					return ok && o2 == want && m2 == mu
+				}
+			}
+			hasDeferUnlock := false
+			allInstrs(f, func(j ssa.Instruction) {
+				if d, ok := j.(*ssa.Defer); ok {
+					if o2, m2, _, ok := lockOp(d); ok && o2 == "Unlock" && m2 == mu {
+						hasDeferUnlock = true
+					}
+				}
+			})
+			if hasDeferUnlock {
+				return
+			}
+			again := reach(f, i, same("Lock"), same("Unlock"), nil)
+			pos := w.Pos(i.Pos())
+			r.check(again == nil, rule, w.FuncName(f), "the mutex "+mu.Name()+" is released before it is acquired again", pos, "Unlock on every path to the next Lock", "a path leads from this Lock of "+mu.Name()+" back to a Lock of the same mutex without an Unlock in between (an early `continue`/loop-back that skips the unlock): the goroutine blocks on a lock it holds, and everybody else who needs the lock with it")
+		})
+	}
+	r.floor(rule+" lock acquisitions", n, 20)
 }
